@@ -1,6 +1,1407 @@
-//! C05 — not implemented yet.
+//! C05 — Vault share accounting rounds in the vault's favour.
+//!
+//! Target: `examples/fungible-vault` (library `Vault`) constructed with every decimals offset
+//! 0..=10 over an `FtBase` asset token; 3 users + a donor.
+//!
+//! Oracle (written from the statement and the `FungibleVault` docs, exact arithmetic in BigInt):
+//! with A = asset balance of the vault, S = share supply, V = 10^offset BEFORE the call
+//!   convert_to_shares / preview_deposit (a) = floor(a(S+V)/(A+1))
+//!   preview_withdraw (a)                     = ceil (a(S+V)/(A+1))
+//!   convert_to_assets / preview_redeem (s)  = floor(s(A+1)/(S+V))
+//!   preview_mint (s)                         = ceil (s(A+1)/(S+V))
+//!   max_redeem(o) = share balance of o, max_withdraw(o) = floor(bal(o)(A+1)/(S+V))
+//! (negative input: documented error; result not representable in i128: documented MathOverflow).
+//! An operation returns what its preview returned immediately before, moves exactly
+//! (assets, shares) between exactly the named parties, spends exactly `shares` of the operator's
+//! share allowance (resp. `assets` of the operator's asset allowance, pulled with `transfer_from`)
+//! when operator != owner, emits one deposit/withdraw event with the same numbers and parties,
+//! and never lowers (A+1)/(S+V).
+//!
+//! The vault set-up and op-execution helpers (`VaultEnv`, `VCall`, `VAuth`, `VDump`) are `pub`
+//! so that other checks (C01 / C02 vault-share flavour) can drive the same contract.
+
+use crate::big::*;
 use crate::engine::*;
+use crate::envx::{self, Ev, Inv};
+use crate::gen::pick;
+use num_bigint::BigInt;
+use proptest::prelude::*;
+use serde::{Deserialize, Serialize};
+use soroban_sdk::{Address, Env, String as SString};
+use std::collections::BTreeSet;
+use stellar_tokens::fungible::Base;
+
+// ===================================================================== set-up and execution (pub)
+
+pub const N_USERS: usize = 3;
+/// actors = users 0..N_USERS, then the donor
+pub const N_ACTORS: usize = N_USERS + 1;
+
+/// Observed state of (asset token, vault share token) over `parties` = actors + vault.
+#[derive(Clone, Debug, PartialEq, Eq)]
+pub struct VDump {
+    pub asset_supply: i128,
+    /// asset balances of the actors, then of the vault (last) == total assets
+    pub asset_bal: Vec<i128>,
+    pub share_supply: i128,
+    pub share_bal: Vec<i128>,
+    /// allowance[owner][spender] on the asset token
+    pub asset_allow: Vec<Vec<i128>>,
+    /// allowance[owner][spender] on the vault share token
+    pub share_allow: Vec<Vec<i128>>,
+}
+impl VDump {
+    pub fn vault_idx(&self) -> usize {
+        self.asset_bal.len() - 1
+    }
+    pub fn total_assets(&self) -> i128 {
+        self.asset_bal[self.vault_idx()]
+    }
+}
+
+#[derive(Clone, Copy, Debug, PartialEq, Eq, PartialOrd, Ord, Serialize, Deserialize)]
+pub enum VKind {
+    Deposit,
+    Mint,
+    Withdraw,
+    Redeem,
+}
+impl VKind {
+    pub fn func(self) -> &'static str {
+        match self {
+            VKind::Deposit => "deposit",
+            VKind::Mint => "mint",
+            VKind::Withdraw => "withdraw",
+            VKind::Redeem => "redeem",
+        }
+    }
+    pub fn preview(self) -> &'static str {
+        match self {
+            VKind::Deposit => "preview_deposit",
+            VKind::Mint => "preview_mint",
+            VKind::Withdraw => "preview_withdraw",
+            VKind::Redeem => "preview_redeem",
+        }
+    }
+    pub fn is_entry(self) -> bool {
+        matches!(self, VKind::Deposit | VKind::Mint)
+    }
+}
+
+/// Authorization mode of one vault operation.  The only documented authorizer is `operator`;
+/// for deposit/mint its entry must carry the nested asset pull as a sub-invocation.
+#[derive(Clone, Debug, Serialize, Deserialize, PartialEq, Eq)]
+pub enum VAuth {
+    /// operator authorizes the exact invocation tree
+    Exact,
+    /// no entry at all
+    Drop,
+    /// somebody else authorizes the exact tree
+    Swap(u16),
+    /// deposit/mint: the root without the nested asset pull; withdraw/redeem: the sibling function
+    DropSub,
+    /// the root with amount + 1
+    Tamper,
+    /// Exact plus an unrelated entry of somebody else
+    Surplus(u16),
+}
+
+/// A fully resolved vault operation (party indices into `VaultEnv::actors`).
+#[derive(Clone, Debug)]
+pub struct VCall {
+    pub kind: VKind,
+    /// assets for deposit/withdraw, shares for mint/redeem
+    pub amount: i128,
+    pub receiver: usize,
+    /// `from` (deposit/mint) resp. `owner` (withdraw/redeem)
+    pub holder: usize,
+    pub operator: usize,
+    /// deposit/mint: the amount the nested asset `transfer`/`transfer_from` will carry
+    pub pull_assets: i128,
+}
+
+pub struct VaultEnv {
+    pub e: Env,
+    pub asset: Address,
+    pub vault: Address,
+    /// mint authority of the asset token
+    pub admin: Address,
+    /// users 0..N_USERS, then the donor
+    pub actors: Vec<Address>,
+    pub offset: u32,
+    /// live_until ledger used for every approval (the ledger is never advanced)
+    pub live: u32,
+}
+
+impl VaultEnv {
+    /// Fresh Env with an `FtBase` asset token and the example vault over it.
+    pub fn setup(offset: u32, seq: u32) -> VaultEnv {
+        let e = envx::new_env(seq, envx::BIG_TTL);
+        let admin = envx::actor(&e);
+        let actors = envx::actors(&e, N_ACTORS);
+        let asset = e.register(crate::contracts::ft::ft_base::FtBase, (admin.clone(),));
+        let vault = e.register(
+            crate::examples::fungible_vault::contract::ExampleContract,
+            (SString::from_str(&e, "Vault"), SString::from_str(&e, "VLT"), asset.clone(), offset),
+        );
+        envx::no_auth(&e);
+        VaultEnv { live: seq + 1000, e, asset, vault, admin, actors, offset }
+    }
+
+    /// actors + vault
+    pub fn parties(&self) -> Vec<Address> {
+        let mut v = self.actors.clone();
+        v.push(self.vault.clone());
+        v
+    }
+
+    /// Bulk read through the library getters (one frame per token).
+    pub fn dump(&self) -> VDump {
+        let e = &self.e;
+        let ps = self.parties();
+        let read = |c: &Address| {
+            e.as_contract(c, || {
+                let supply = Base::total_supply(e);
+                let bal: Vec<i128> = ps.iter().map(|a| Base::balance(e, a)).collect();
+                let allow: Vec<Vec<i128>> = ps.iter().map(|o| ps.iter().map(|s| Base::allowance(e, o, s)).collect()).collect();
+                (supply, bal, allow)
+            })
+        };
+        let (asset_supply, asset_bal, asset_allow) = read(&self.asset);
+        let (share_supply, share_bal, share_allow) = read(&self.vault);
+        VDump { asset_supply, asset_bal, share_supply, share_bal, asset_allow, share_allow }
+    }
+
+    /// Entry-point getter returning an i128.
+    pub fn q(&self, f: &str, args: soroban_sdk::Vec<soroban_sdk::Val>) -> Result<i128, String> {
+        envx::call_t::<i128>(&self.e, &self.vault, f, args)
+    }
+    pub fn q_amount(&self, f: &str, x: i128) -> Result<i128, String> {
+        self.q(f, args![&self.e; x])
+    }
+    pub fn q_addr(&self, f: &str, who: usize) -> Result<i128, String> {
+        self.q(f, args![&self.e; self.actors[who].clone()])
+    }
+
+    fn authed(&self, who: &Address, c: &Address, f: &str, args: soroban_sdk::Vec<soroban_sdk::Val>) -> Result<(), String> {
+        let inv = Inv::new(c, f, args.clone());
+        envx::set_auth(&self.e, &[(who, &inv)]);
+        let r = envx::call(&self.e, c, f, args).map(|_| ());
+        envx::no_auth(&self.e);
+        r
+    }
+    /// Asset mint to actor `who`, authorized by the asset admin.
+    pub fn fund(&self, who: usize, amount: i128) -> Result<(), String> {
+        self.authed(&self.admin, &self.asset, "mint", args![&self.e; self.actors[who].clone(), amount])
+    }
+    /// `asset.approve(owner, spender, amount, live)` authorized by `owner`.
+    pub fn asset_approve(&self, owner: usize, spender: usize, amount: i128) -> Result<(), String> {
+        let a = &self.actors;
+        self.authed(&a[owner], &self.asset, "approve", args![&self.e; a[owner].clone(), a[spender].clone(), amount, self.live])
+    }
+    /// `vault.approve(owner, spender, amount, live)` (share allowance) authorized by `owner`.
+    pub fn share_approve(&self, owner: usize, spender: usize, amount: i128) -> Result<(), String> {
+        let a = &self.actors;
+        self.authed(&a[owner], &self.vault, "approve", args![&self.e; a[owner].clone(), a[spender].clone(), amount, self.live])
+    }
+    /// Donation: direct asset `transfer(by, vault, amount)` authorized by `by`.
+    pub fn donate(&self, by: usize, amount: i128) -> Result<(), String> {
+        let a = &self.actors;
+        self.authed(&a[by], &self.asset, "transfer", args![&self.e; a[by].clone(), self.vault.clone(), amount])
+    }
+    /// Share `transfer(from, to, amount)` on the vault token authorized by `from`.
+    pub fn share_transfer(&self, from: usize, to: usize, amount: i128) -> Result<(), String> {
+        let a = &self.actors;
+        self.authed(&a[from], &self.vault, "transfer", args![&self.e; a[from].clone(), a[to].clone(), amount])
+    }
+
+    /// The invocation tree the operator must authorize for `c`.
+    pub fn auth_tree(&self, c: &VCall) -> Inv {
+        let e = &self.e;
+        let a = &self.actors;
+        let root = Inv::new(
+            &self.vault,
+            c.kind.func(),
+            args![e; c.amount, a[c.receiver].clone(), a[c.holder].clone(), a[c.operator].clone()],
+        );
+        if !c.kind.is_entry() {
+            // the asset leaves the vault under the vault's own (invoker) authority
+            return root;
+        }
+        let sub = if c.operator == c.holder {
+            // the vault pulls with `transfer(from, vault, assets)`: `from` (== operator) authorizes it
+            Inv::new(&self.asset, "transfer", args![e; a[c.holder].clone(), self.vault.clone(), c.pull_assets])
+        } else {
+            // the vault pulls with `transfer_from(operator, from, vault, assets)`: the operator is the spender
+            Inv::new(
+                &self.asset,
+                "transfer_from",
+                args![e; a[c.operator].clone(), a[c.holder].clone(), self.vault.clone(), c.pull_assets],
+            )
+        };
+        root.with_sub(sub)
+    }
+
+    /// Attach authorization according to `mode`, invoke, return (result, effective_exact, vault events).
+    /// `effective_exact` is true iff the operator's exact tree was attached.
+    pub fn exec(&self, c: &VCall, mode: &VAuth) -> (Result<i128, String>, bool, Vec<Ev>) {
+        let e = &self.e;
+        let a = &self.actors;
+        let tree = self.auth_tree(c);
+        let others: Vec<usize> = (0..a.len()).filter(|i| *i != c.operator).collect();
+        let mut entries: Vec<(Address, Inv)> = vec![(a[c.operator].clone(), tree.clone())];
+        let mut exact = true;
+        match mode {
+            VAuth::Exact => {}
+            VAuth::Drop => {
+                entries.clear();
+                exact = false;
+            }
+            VAuth::Swap(o) => {
+                entries[0].0 = a[others[pick(*o, others.len())]].clone();
+                exact = false;
+            }
+            VAuth::DropSub => {
+                if c.kind.is_entry() {
+                    entries[0].1.subs.clear();
+                } else {
+                    entries[0].1.func = match c.kind {
+                        VKind::Withdraw => "redeem".into(),
+                        _ => "withdraw".into(),
+                    };
+                }
+                exact = false;
+            }
+            VAuth::Tamper => {
+                let mut t = c.clone();
+                t.amount = c.amount.wrapping_add(1);
+                entries[0].1 = self.auth_tree(&t);
+                exact = false;
+            }
+            VAuth::Surplus(o) => {
+                let who = a[others[pick(*o, others.len())]].clone();
+                let junk = Inv::new(&self.asset, "approve", args![e; who.clone(), who.clone(), 1i128, self.live]);
+                entries.push((who, junk));
+            }
+        }
+        let refs: Vec<(&Address, &Inv)> = entries.iter().map(|(x, i)| (x, i)).collect();
+        envx::set_auth(e, &refs);
+        let r = envx::call_t::<i128>(
+            e,
+            &self.vault,
+            c.kind.func(),
+            args![e; c.amount, a[c.receiver].clone(), a[c.holder].clone(), a[c.operator].clone()],
+        );
+        let evs = if r.is_ok() { envx::events_of(e, &self.vault) } else { vec![] };
+        envx::no_auth(e);
+        (r, exact, evs)
+    }
+}
+
+/// Decoded vault event: (name, topic addresses 1..=3, assets, shares).
+pub fn decode_vault_event(e: &Env, ev: &Ev) -> Option<(String, [Address; 3], i128, i128)> {
+    let name = ev.topic_sym(0)?;
+    let t = [ev.topic_addr(e, 1)?, ev.topic_addr(e, 2)?, ev.topic_addr(e, 3)?];
+    let assets = envx::scval_i128(&ev.data_field("assets")?)?;
+    let shares = envx::scval_i128(&ev.data_field("shares")?)?;
+    Some((name, t, assets, shares))
+}
+
+// ===================================================================== exact oracle
+
+/// What the documentation fixes for one conversion.
+#[derive(Clone, Debug, PartialEq, Eq)]
+pub enum Exp {
+    /// must succeed with exactly this value
+    Val(i128),
+    /// must fail (documented error): "negative" | "overflow"
+    MustFail(&'static str),
+    /// an intermediate sum (S + 10^offset or A + 1) does not fit i128: MathOverflow is documented for
+    /// "mathematical operations", so failure is accepted; success must carry the exact value
+    MayFail(i128),
+}
+#[derive(Clone, Debug)]
+pub struct Conv {
+    pub exp: Exp,
+    /// the value the opposite rounding would give (when it fits)
+    pub alt: Option<i128>,
+    /// exact division has a non-zero remainder
+    pub rem: bool,
+    /// x*y exceeds i128 although the result fits
+    pub phantom: bool,
+}
+impl Conv {
+    pub fn value(&self) -> Option<i128> {
+        match self.exp {
+            Exp::Val(v) | Exp::MayFail(v) => Some(v),
+            Exp::MustFail(_) => None,
+        }
+    }
+}
+
+pub struct Rate {
+    /// A + 1
+    pub a1: BigInt,
+    /// S + 10^offset
+    pub sv: BigInt,
+    pub inter_overflow: bool,
+}
+pub fn rate_of(total_assets: i128, supply: i128, offset: u32) -> Rate {
+    let a1 = b(total_assets) + 1;
+    let sv = b(supply) + pow10(offset);
+    let inter_overflow = fits_i128(&a1).is_none() || fits_i128(&sv).is_none();
+    Rate { a1, sv, inter_overflow }
+}
+/// `to_shares`: x(S+V)/(A+1), else x(A+1)/(S+V); rounded up when `ceil`.
+pub fn convert(r: &Rate, x: i128, to_shares: bool, ceil: bool) -> Conv {
+    if x < 0 {
+        return Conv { exp: Exp::MustFail("negative"), alt: None, rem: false, phantom: false };
+    }
+    if x == 0 {
+        return Conv { exp: Exp::Val(0), alt: Some(0), rem: false, phantom: false };
+    }
+    let (n, d) = if to_shares { (&r.sv, &r.a1) } else { (&r.a1, &r.sv) };
+    let prod = b(x) * n;
+    let fl = div_floor(&prod, d);
+    let ce = div_ceil(&prod, d);
+    let rem = fl != ce;
+    let (main, other) = if ceil { (ce, fl) } else { (fl, ce) };
+    let exp = match fits_i128(&main) {
+        Some(v) if r.inter_overflow => Exp::MayFail(v),
+        Some(v) => Exp::Val(v),
+        None => Exp::MustFail("overflow"),
+    };
+    let phantom = fits_i128(&prod).is_none() && fits_i128(&main).is_some();
+    Conv { exp, alt: fits_i128(&other), rem, phantom }
+}
+
+fn sat(x: &BigInt) -> i128 {
+    fits_i128(x).unwrap_or(i128::MAX)
+}
+
+/// Compare a conversion getter's answer with the oracle.
+fn check_conv(f: &str, got: &Result<i128, String>, c: &Conv, what: &str) -> R {
+    match (&c.exp, got) {
+        (Exp::Val(v), Ok(g)) | (Exp::MayFail(v), Ok(g)) => {
+            if g != v {
+                let clause = if c.alt == Some(*g) { "wrong-rounding" } else { "wrong-value" };
+                bail!(format!("C05/{f}/{clause}"), "{what}: {f} returned {g}, exact formula gives {v} (opposite rounding: {:?})", c.alt);
+            }
+        }
+        (Exp::Val(v), Err(er)) => {
+            bail!(format!("C05/{f}/unexpected-failure"), "{what}: {f} failed ({er}) although the exact value {v} fits i128")
+        }
+        (Exp::MayFail(_), Err(_)) => {}
+        (Exp::MustFail(why), Ok(g)) => {
+            bail!(format!("C05/{f}/{why}-accepted"), "{what}: {f} returned {g} although the input is {why} (documented error)")
+        }
+        (Exp::MustFail(_), Err(_)) => {}
+    }
+    Ok(())
+}
+
+/// Model prediction for one vault operation under exact authorization.
+#[derive(Clone, Debug)]
+pub enum Pred {
+    Ok { assets: i128, shares: i128 },
+    Fail(&'static str),
+    /// intermediate overflow: either outcome; on success these are the amounts
+    Unsure { assets: i128, shares: i128 },
+}
+
+pub fn predict(m: &VDump, offset: u32, c: &VCall) -> (Pred, Conv) {
+    let r = rate_of(m.total_assets(), m.share_supply, offset);
+    let x = c.amount;
+    let (conv, assets, shares);
+    match c.kind {
+        VKind::Deposit => {
+            conv = convert(&r, x, true, false);
+            let Some(s) = conv.value() else { return (Pred::Fail(fail_reason(&conv)), conv) };
+            assets = x;
+            shares = s;
+        }
+        VKind::Mint => {
+            conv = convert(&r, x, false, true);
+            let Some(a) = conv.value() else { return (Pred::Fail(fail_reason(&conv)), conv) };
+            assets = a;
+            shares = x;
+        }
+        VKind::Withdraw => {
+            conv = convert(&r, x, true, true);
+            if x < 0 {
+                return (Pred::Fail("negative"), conv);
+            }
+            // max_withdraw(owner) = floor(bal (A+1)/(S+V)) always fits (<= A)
+            let maxw = convert(&r, m.share_bal[c.holder], false, false).value().unwrap_or(0);
+            if x > maxw {
+                return (Pred::Fail("exceeds-max"), conv);
+            }
+            let Some(s) = conv.value() else { return (Pred::Fail(fail_reason(&conv)), conv) };
+            assets = x;
+            shares = s;
+        }
+        VKind::Redeem => {
+            conv = convert(&r, x, false, false);
+            if x < 0 {
+                return (Pred::Fail("negative"), conv);
+            }
+            if x > m.share_bal[c.holder] {
+                return (Pred::Fail("exceeds-max"), conv);
+            }
+            let Some(a) = conv.value() else { return (Pred::Fail(fail_reason(&conv)), conv) };
+            assets = a;
+            shares = x;
+        }
+    }
+    if c.kind.is_entry() {
+        if m.asset_bal[c.holder] < assets {
+            return (Pred::Fail("insufficient-assets"), conv);
+        }
+        if c.operator != c.holder && m.asset_allow[c.holder][c.operator] < assets {
+            return (Pred::Fail("insufficient-asset-allowance"), conv);
+        }
+        if m.share_supply.checked_add(shares).is_none() {
+            return (Pred::Fail("share-supply-overflow"), conv);
+        }
+    } else if c.operator != c.holder && m.share_allow[c.holder][c.operator] < shares {
+        return (Pred::Fail("insufficient-share-allowance"), conv);
+    }
+    // any conversion on the way (including the max_withdraw bound) may hit the intermediate overflow
+    let p = if r.inter_overflow { Pred::Unsure { assets, shares } } else { Pred::Ok { assets, shares } };
+    (p, conv)
+}
+fn fail_reason(c: &Conv) -> &'static str {
+    match c.exp {
+        Exp::MustFail(w) => w,
+        _ => "?",
+    }
+}
+
+/// Post-state the statement prescribes.
+pub fn apply(m: &VDump, c: &VCall, assets: i128, shares: i128) -> VDump {
+    let mut n = m.clone();
+    let v = m.vault_idx();
+    if c.kind.is_entry() {
+        n.asset_bal[c.holder] -= assets;
+        n.asset_bal[v] += assets;
+        if c.operator != c.holder && assets > 0 {
+            n.asset_allow[c.holder][c.operator] -= assets;
+        }
+        n.share_bal[c.receiver] += shares;
+        n.share_supply += shares;
+    } else {
+        if c.operator != c.holder && shares > 0 {
+            n.share_allow[c.holder][c.operator] -= shares;
+        }
+        n.share_bal[c.holder] -= shares;
+        n.share_supply -= shares;
+        n.asset_bal[v] -= assets;
+        n.asset_bal[c.receiver] += assets;
+    }
+    n
+}
+
+/// Classify the first difference between the observed and the prescribed post-state.
+fn diff_state(f: &str, c: &VCall, pre: &VDump, want: &VDump, got: &VDump, what: &str) -> R {
+    if want == got {
+        return Ok(());
+    }
+    let v = want.vault_idx();
+    let n = want.asset_bal.len();
+    let (asset_named, share_named): (Vec<usize>, Vec<usize>) =
+        if c.kind.is_entry() { (vec![c.holder, v], vec![c.receiver]) } else { (vec![v, c.receiver], vec![c.holder]) };
+    // parties that are not named by the call must not move at all
+    for i in 0..n {
+        if !asset_named.contains(&i) && got.asset_bal[i] != pre.asset_bal[i] {
+            bail!(
+                format!("C05/{f}/wrong-party"),
+                "{what}: asset balance of party {i} (not a named asset party {:?}) changed {} -> {}",
+                asset_named,
+                pre.asset_bal[i],
+                got.asset_bal[i]
+            );
+        }
+        if !share_named.contains(&i) && got.share_bal[i] != pre.share_bal[i] {
+            bail!(
+                format!("C05/{f}/wrong-party"),
+                "{what}: share balance of party {i} (not the named share party {:?}) changed {} -> {}",
+                share_named,
+                pre.share_bal[i],
+                got.share_bal[i]
+            );
+        }
+    }
+    for i in 0..n {
+        ensure!(
+            got.asset_bal[i] == want.asset_bal[i],
+            format!("C05/{f}/wrong-assets-moved"),
+            "{what}: asset balance of party {i}: {} -> {}, expected {}",
+            pre.asset_bal[i],
+            got.asset_bal[i],
+            want.asset_bal[i]
+        );
+        ensure!(
+            got.share_bal[i] == want.share_bal[i],
+            format!("C05/{f}/wrong-shares-moved"),
+            "{what}: share balance of party {i}: {} -> {}, expected {}",
+            pre.share_bal[i],
+            got.share_bal[i],
+            want.share_bal[i]
+        );
+    }
+    ensure!(
+        got.share_supply == want.share_supply,
+        format!("C05/{f}/wrong-share-supply"),
+        "{what}: share supply {} -> {}, expected {}",
+        pre.share_supply,
+        got.share_supply,
+        want.share_supply
+    );
+    ensure!(
+        got.asset_supply == want.asset_supply,
+        format!("C05/{f}/asset-supply-changed"),
+        "{what}: asset supply {} -> {}",
+        pre.asset_supply,
+        got.asset_supply
+    );
+    for o in 0..n {
+        for s in 0..n {
+            let spent_pair = c.operator != c.holder && o == c.holder && s == c.operator;
+            if got.share_allow[o][s] != want.share_allow[o][s] {
+                let clause = if spent_pair && !c.kind.is_entry() { "share-allowance-not-spent-exactly" } else { "foreign-share-allowance-changed" };
+                bail!(
+                    format!("C05/{f}/{clause}"),
+                    "{what}: share allowance ({o},{s}) {} -> {}, expected {}",
+                    pre.share_allow[o][s],
+                    got.share_allow[o][s],
+                    want.share_allow[o][s]
+                );
+            }
+            if got.asset_allow[o][s] != want.asset_allow[o][s] {
+                let clause = if spent_pair && c.kind.is_entry() { "asset-allowance-not-spent-exactly" } else { "foreign-asset-allowance-changed" };
+                bail!(
+                    format!("C05/{f}/{clause}"),
+                    "{what}: asset allowance ({o},{s}) {} -> {}, expected {}",
+                    pre.asset_allow[o][s],
+                    got.asset_allow[o][s],
+                    want.asset_allow[o][s]
+                );
+            }
+        }
+    }
+    bail!(format!("C05/{f}/state-mismatch"), "{what}: observed {:?} expected {:?}", got, want)
+}
+
+/// (A'+1)(S+V) >= (A+1)(S'+V), cross-multiplied.
+fn rate_not_decreased(pre: &VDump, post: &VDump, offset: u32) -> bool {
+    let v = pow10(offset);
+    let lhs = (b(post.total_assets()) + 1) * (b(pre.share_supply) + &v);
+    let rhs = (b(pre.total_assets()) + 1) * (b(post.share_supply) + &v);
+    lhs >= rhs
+}
+
+// ===================================================================== case
+
+#[derive(Clone, Debug, Serialize, Deserialize)]
+pub enum Amt {
+    Abs(#[serde(with = "crate::gen::i128_str")] i128),
+    /// k/4 of the reference quantity (k <= 4)
+    Frac(u8),
+    /// p/65536 of the reference quantity
+    Part(u16),
+    /// reference quantity + d: deposit/donate -> asset balance of the payer; mint -> shares affordable with
+    /// that balance; withdraw -> max_withdraw(owner); redeem / share transfer -> share balance (= max_redeem)
+    MaxPlus(i8),
+    /// what the operator's current allowance permits + d (falls back to MaxPlus when operator == holder)
+    AllowPlus(i8),
+    /// (i128::MAX - share supply) + d, expressed in the unit of the call
+    SupplyGap(i8),
+}
+
+#[derive(Clone, Debug, Serialize, Deserialize)]
+pub enum Allow {
+    /// leave the allowance as it is
+    Keep,
+    /// approve exactly what the call needs + d just before the call
+    Needed(i8),
+    /// approve i128::MAX
+    Max,
+}
+#[derive(Clone, Debug, Serialize, Deserialize)]
+pub enum Who {
+    /// operator == from / owner
+    Holder,
+    /// some other actor, with an allowance decision
+    Other { sel: u16, allow: Allow },
+}
+
+#[derive(Clone, Copy, Debug, Serialize, Deserialize, PartialEq, Eq)]
+pub enum ProbeKind {
+    ConvertToShares,
+    ConvertToAssets,
+    PreviewDeposit,
+    PreviewMint,
+    PreviewWithdraw,
+    PreviewRedeem,
+    MaxWithdraw,
+    MaxRedeem,
+    Totals,
+}
+#[derive(Clone, Copy, Debug, Serialize, Deserialize, PartialEq, Eq)]
+pub enum RtKind {
+    DepositRedeem,
+    DepositWithdraw,
+    MintWithdraw,
+    MintRedeem,
+}
+
+#[derive(Clone, Debug, Serialize, Deserialize)]
+pub enum Op {
+    Vault { kind: VKind, amt: Amt, receiver: u16, holder: u16, operator: Who, auth: VAuth },
+    Donate { by: u16, amt: Amt },
+    ApproveAsset { owner: u16, spender: u16, amt: Amt },
+    ApproveShares { owner: u16, spender: u16, amt: Amt },
+    ShareTransfer { from: u16, to: u16, amt: Amt },
+    Probe { kind: ProbeKind, who: u16, amt: Amt },
+    /// two operations of one user back to back: nobody gains from rounding
+    RoundTrip { kind: RtKind, who: u16, amt: Amt },
+}
+
+#[derive(Clone, Debug, Serialize, Deserialize)]
+pub struct Case {
+    pub offset: u32,
+    pub seq: u32,
+    /// asset funding of the 4 actors
+    #[serde(with = "crate::gen::i128_vec_str")]
+    pub funds: Vec<i128>,
+    pub ops: Vec<Op>,
+}
+
+// ---------------------------------------------------------------- strategies
+
+fn pow10_i(k: u32) -> i128 {
+    10i128.pow(k)
+}
+
+fn abs_strategy() -> BoxedStrategy<i128> {
+    prop_oneof![
+        4 => proptest::sample::select(vec![0i128, 1, 2, 3, 7]),
+        4 => (1u32..=38, -1i128..=1).prop_map(|(k, d)| pow10_i(k) + d),
+        2 => 0i128..=5000,
+        3 => crate::gen::i128_anybits().prop_map(|x| x.checked_abs().unwrap_or(i128::MAX)),
+        1 => proptest::sample::select(vec![i128::MAX, i128::MAX - 1, i128::MAX / 2, i128::MAX / 2 + 1, 1i128 << 126, 1i128 << 100, 1i128 << 64]),
+        1 => proptest::sample::select(vec![-1i128, -7, i128::MIN, -1_000_000_000_000_000_000]),
+    ]
+    .boxed()
+}
+
+fn amt_strategy() -> BoxedStrategy<Amt> {
+    prop_oneof![
+        6 => abs_strategy().prop_map(Amt::Abs),
+        3 => (0u8..=4).prop_map(Amt::Frac),
+        6 => any::<u16>().prop_map(Amt::Part),
+        4 => (-1i8..=1).prop_map(Amt::MaxPlus),
+        1 => (-1i8..=1).prop_map(Amt::AllowPlus),
+        1 => (-1i8..=1).prop_map(Amt::SupplyGap),
+    ]
+    .boxed()
+}
+/// amounts for probes: absolute lattice dominates
+fn probe_amt_strategy() -> BoxedStrategy<Amt> {
+    prop_oneof![
+        8 => abs_strategy().prop_map(Amt::Abs),
+        3 => any::<u16>().prop_map(Amt::Part),
+        1 => (-1i8..=1).prop_map(Amt::MaxPlus),
+        1 => (-1i8..=1).prop_map(Amt::SupplyGap),
+    ]
+    .boxed()
+}
+/// amounts that are likely to go through (funding the vault)
+fn easy_amt_strategy() -> BoxedStrategy<Amt> {
+    prop_oneof![
+        2 => (1u8..=4).prop_map(Amt::Frac),
+        4 => (1u16..).prop_map(Amt::Part),
+        2 => proptest::sample::select(vec![1i128, 2, 3, 7, 9, 11, 99, 101, 999, 1001]).prop_map(Amt::Abs),
+    ]
+    .boxed()
+}
+
+fn allow_strategy() -> BoxedStrategy<Allow> {
+    prop_oneof![
+        5 => Just(Allow::Needed(0)),
+        2 => Just(Allow::Needed(-1)),
+        2 => (1i8..=5).prop_map(Allow::Needed),
+        2 => Just(Allow::Max),
+        2 => Just(Allow::Keep),
+    ]
+    .boxed()
+}
+fn who_strategy() -> BoxedStrategy<Who> {
+    prop_oneof![
+        6 => Just(Who::Holder),
+        5 => (any::<u16>(), allow_strategy()).prop_map(|(sel, allow)| Who::Other { sel, allow }),
+    ]
+    .boxed()
+}
+fn auth_strategy() -> BoxedStrategy<VAuth> {
+    prop_oneof![
+        36 => Just(VAuth::Exact),
+        1 => Just(VAuth::Drop),
+        1 => any::<u16>().prop_map(VAuth::Swap),
+        1 => Just(VAuth::DropSub),
+        1 => Just(VAuth::Tamper),
+        2 => any::<u16>().prop_map(VAuth::Surplus),
+    ]
+    .boxed()
+}
+
+fn vault_op(kind: VKind) -> BoxedStrategy<Op> {
+    (amt_strategy(), any::<u16>(), any::<u16>(), who_strategy(), auth_strategy())
+        .prop_map(move |(amt, receiver, holder, operator, auth)| Op::Vault { kind, amt, receiver, holder, operator, auth })
+        .boxed()
+}
+
+fn op_strategy() -> BoxedStrategy<Op> {
+    let probe_kind = proptest::sample::select(vec![
+        ProbeKind::ConvertToShares,
+        ProbeKind::ConvertToAssets,
+        ProbeKind::PreviewDeposit,
+        ProbeKind::PreviewMint,
+        ProbeKind::PreviewWithdraw,
+        ProbeKind::PreviewRedeem,
+        ProbeKind::MaxWithdraw,
+        ProbeKind::MaxRedeem,
+        ProbeKind::Totals,
+    ]);
+    let rt_kind = proptest::sample::select(vec![RtKind::DepositRedeem, RtKind::DepositWithdraw, RtKind::MintWithdraw, RtKind::MintRedeem]);
+    prop_oneof![
+        6 => vault_op(VKind::Deposit),
+        5 => vault_op(VKind::Mint),
+        6 => vault_op(VKind::Withdraw),
+        6 => vault_op(VKind::Redeem),
+        4 => (any::<u16>(), amt_strategy()).prop_map(|(by, amt)| Op::Donate { by, amt }),
+        1 => (any::<u16>(), any::<u16>(), amt_strategy()).prop_map(|(owner, spender, amt)| Op::ApproveAsset { owner, spender, amt }),
+        1 => (any::<u16>(), any::<u16>(), amt_strategy()).prop_map(|(owner, spender, amt)| Op::ApproveShares { owner, spender, amt }),
+        2 => (any::<u16>(), any::<u16>(), amt_strategy()).prop_map(|(from, to, amt)| Op::ShareTransfer { from, to, amt }),
+        6 => (probe_kind, any::<u16>(), probe_amt_strategy()).prop_map(|(kind, who, amt)| Op::Probe { kind, who, amt }),
+        3 => (rt_kind, any::<u16>(), easy_amt_strategy()).prop_map(|(kind, who, amt)| Op::RoundTrip { kind, who, amt }),
+    ]
+    .boxed()
+}
+
+/// pre-funded vault: a deposit (or mint) by some user, possibly followed by a donation
+fn prefix_strategy() -> BoxedStrategy<Vec<Op>> {
+    let first = (proptest::bool::weighted(0.7), easy_amt_strategy(), any::<u16>()).prop_map(|(dep, amt, holder)| Op::Vault {
+        kind: if dep { VKind::Deposit } else { VKind::Mint },
+        amt,
+        receiver: holder,
+        holder,
+        operator: Who::Holder,
+        auth: VAuth::Exact,
+    });
+    let don = (any::<u16>(), easy_amt_strategy()).prop_map(|(by, amt)| Op::Donate { by, amt });
+    prop_oneof![
+        3 => Just(vec![]),
+        3 => first.clone().prop_map(|f| vec![f]),
+        3 => (first, don.clone()).prop_map(|(f, d)| vec![f, d]),
+        1 => don.prop_map(|d| vec![d]),
+    ]
+    .boxed()
+}
+
+fn fund_strategy() -> BoxedStrategy<i128> {
+    prop_oneof![
+        1 => Just(0i128),
+        3 => 1i128..=5000,
+        3 => 1_000_000i128..=1_000_000_000_000,
+        3 => (17u32..=30, 0i128..1000).prop_map(|(k, d)| pow10_i(k) + d),
+        3 => (100u32..=123, any::<u64>()).prop_map(|(k, d)| (1i128 << k) + d as i128),
+    ]
+    .boxed()
+}
+
+fn strategy_for(offset: u32, tier: Tier) -> BoxedStrategy<Case> {
+    let max_ops = tier.pick(26usize, 38usize);
+    (100u32..5000, proptest::collection::vec(fund_strategy(), N_ACTORS), prefix_strategy(), proptest::collection::vec(op_strategy(), 1..=max_ops))
+        .prop_map(move |(seq, funds, mut pre, ops)| {
+            pre.extend(ops);
+            Case { offset, seq, funds, ops: pre }
+        })
+        .boxed()
+}
+
+// ===================================================================== interpreter
+
+#[derive(Default)]
+struct Stats {
+    kinds_ok: BTreeSet<VKind>,
+    rem_seen: bool,
+}
+
+struct Run<'a> {
+    v: &'a VaultEnv,
+    /// reference model == last verified observation
+    m: VDump,
+    st: Stats,
+}
+
+fn note_conv(ctx: &mut Ctx, st: &mut Stats, c: &Conv) {
+    if c.rem {
+        st.rem_seen = true;
+        ctx.class("conversion_with_remainder");
+    }
+    if c.phantom {
+        ctx.class("phantom_overflow_hit");
+    }
+    match c.exp {
+        Exp::MustFail("overflow") => ctx.class("result_overflow"),
+        Exp::MustFail(_) => ctx.class("negative_input"),
+        Exp::MayFail(_) => ctx.class("intermediate_overflow"),
+        Exp::Val(_) => {}
+    }
+}
+
+impl<'a> Run<'a> {
+    fn rate(&self) -> Rate {
+        rate_of(self.m.total_assets(), self.m.share_supply, self.v.offset)
+    }
+
+    /// Reference quantity for the amount selectors of a vault op.
+    fn resolve_vault_amt(&self, amt: &Amt, kind: VKind, holder: usize, operator: usize) -> i128 {
+        let m = &self.m;
+        let r = self.rate();
+        let shares_for = |assets: i128| sat(&div_floor(&(b(assets) * &r.sv), &r.a1));
+        let assets_for = |shares: i128| sat(&div_floor(&(b(shares) * &r.a1), &r.sv));
+        let base = match kind {
+            VKind::Deposit => m.asset_bal[holder],
+            VKind::Mint => shares_for(m.asset_bal[holder]),
+            VKind::Withdraw => assets_for(m.share_bal[holder]),
+            VKind::Redeem => m.share_bal[holder],
+        };
+        match amt {
+            Amt::Abs(x) => *x,
+            Amt::Frac(k) => frac(base, *k),
+            Amt::Part(p) => part(base, *p),
+            Amt::MaxPlus(d) => base.saturating_add(*d as i128),
+            Amt::AllowPlus(d) => {
+                if operator == holder {
+                    base.saturating_add(*d as i128)
+                } else {
+                    let al = match kind {
+                        VKind::Deposit => m.asset_allow[holder][operator],
+                        VKind::Mint => shares_for(m.asset_allow[holder][operator]),
+                        VKind::Withdraw => assets_for(m.share_allow[holder][operator]),
+                        VKind::Redeem => m.share_allow[holder][operator],
+                    };
+                    al.saturating_add(*d as i128)
+                }
+            }
+            Amt::SupplyGap(d) => {
+                let gap = i128::MAX - m.share_supply;
+                let g = match kind {
+                    VKind::Deposit | VKind::Withdraw => {
+                        // assets whose floor-conversion reaches the gap: ceil(gap (A+1)/(S+V))
+                        sat(&div_ceil(&(b(gap) * &r.a1), &r.sv))
+                    }
+                    _ => gap,
+                };
+                g.saturating_add(*d as i128)
+            }
+        }
+    }
+    fn resolve_simple(&self, amt: &Amt, base: i128) -> i128 {
+        match amt {
+            Amt::Abs(x) => *x,
+            Amt::Frac(k) => frac(base, *k),
+            Amt::Part(p) => part(base, *p),
+            Amt::MaxPlus(d) | Amt::AllowPlus(d) => base.saturating_add(*d as i128),
+            Amt::SupplyGap(d) => (i128::MAX - self.m.share_supply).saturating_add(*d as i128),
+        }
+    }
+
+    /// observe, compare with the model, adopt
+    fn sync(&mut self, want: &VDump, sig: &str, what: &str) -> R {
+        let got = self.v.dump();
+        ensure!(&got == want, sig.to_string(), "{what}: observed state {:?} differs from the model {:?}", got, want);
+        self.m = got;
+        Ok(())
+    }
+
+    /// One vault operation, fully checked.  Returns Some((assets, shares)) when it succeeded.
+    fn vault_op(&mut self, ctx: &mut Ctx, c0: &VCall, mode: &VAuth, what: &str) -> Result<Option<(i128, i128)>, Violation> {
+        let v = self.v;
+        let f = c0.kind.func();
+        let pre = self.m.clone();
+        let (pred, conv) = predict(&pre, v.offset, c0);
+        note_conv(ctx, &mut self.st, &conv);
+        if c0.kind == VKind::Withdraw {
+            // the max_withdraw bound is itself a conversion
+            let mw = convert(&self.rate(), pre.share_bal[c0.holder], false, false);
+            if mw.rem {
+                self.st.rem_seen = true;
+            }
+        }
+        let what = format!(
+            "{what} {f}({}, receiver {}, holder {}, operator {}) auth {:?}; before: A={} S={} offset={}; model predicts {:?}",
+            c0.amount,
+            c0.receiver,
+            c0.holder,
+            c0.operator,
+            mode,
+            pre.total_assets(),
+            pre.share_supply,
+            v.offset,
+            pred
+        );
+
+        // preview immediately before the operation
+        let pv = v.q_amount(c0.kind.preview(), c0.amount);
+        let pv_check = check_conv(c0.kind.preview(), &pv, &conv, &what);
+
+        let mut c = c0.clone();
+        c.pull_assets = match c0.kind {
+            VKind::Deposit => c0.amount,
+            VKind::Mint => pv.clone().ok().or(conv.value()).unwrap_or(0),
+            _ => 0,
+        };
+        let (res, exact, evs) = v.exec(&c, mode);
+        let post = v.dump();
+        ctx.op(res.is_ok());
+
+        if !exact {
+            ensure!(
+                res.is_err(),
+                format!("C05/{f}/accepted-without-operator-authorization"),
+                "{what}: succeeded ({:?}) although the operator's exact authorization tree was not attached",
+                res
+            );
+            ensure!(post == pre, format!("C05/{f}/failed-call-changed-state"), "{what}: rejected call changed the state");
+            pv_check?;
+            ctx.class("auth_mode_rejected");
+            return Ok(None);
+        }
+
+        let ret = match res {
+            Err(er) => {
+                ensure!(post == pre, format!("C05/{f}/failed-call-changed-state"), "{what}: failed call changed the state");
+                pv_check?;
+                match pred {
+                    Pred::Ok { .. } => {
+                        bail!(format!("C05/{f}/unexpected-failure"), "{what}: failed with {er} although every documented precondition holds")
+                    }
+                    Pred::Fail(why) => {
+                        ctx.class(&format!("rejected:{why}"));
+                        if why == "exceeds-max" {
+                            let maxv = match c.kind {
+                                VKind::Withdraw => convert(&self.rate(), pre.share_bal[c.holder], false, false).value().unwrap_or(0),
+                                _ => pre.share_bal[c.holder],
+                            };
+                            if c.amount == maxv + 1 {
+                                ctx.class(&format!("{f}_max_plus_1_rejected"));
+                            }
+                        }
+                    }
+                    Pred::Unsure { .. } => ctx.class("rejected:intermediate-overflow"),
+                }
+                return Ok(None);
+            }
+            Ok(x) => x,
+        };
+
+        // ---- success under exact authorization
+        // core: the assets-per-share rate never decreases (observed balances only)
+        ensure!(
+            rate_not_decreased(&pre, &post, v.offset),
+            format!("C05/{f}/rate-decreased"),
+            "{what}: (A+1)/(S+V) decreased: A {} -> {}, S {} -> {} (returned {ret})",
+            pre.total_assets(),
+            post.total_assets(),
+            pre.share_supply,
+            post.share_supply
+        );
+        pv_check?;
+        let (assets, shares) = match pred {
+            Pred::Ok { assets, shares } | Pred::Unsure { assets, shares } => (assets, shares),
+            Pred::Fail(why) => bail!(
+                format!("C05/{f}/{why}-accepted"),
+                "{what}: succeeded (returned {ret}); A {} -> {}, S {} -> {}",
+                pre.total_assets(),
+                post.total_assets(),
+                pre.share_supply,
+                post.share_supply
+            ),
+        };
+        if let Ok(p) = &pv {
+            ensure!(ret == *p, format!("C05/{f}/preview-mismatch"), "{what}: {} returned {p} immediately before, the operation returned {ret}", c.kind.preview());
+        }
+        let want_ret = if matches!(c.kind, VKind::Deposit | VKind::Withdraw) { shares } else { assets };
+        ensure!(ret == want_ret, format!("C05/{f}/wrong-return"), "{what}: returned {ret}, exact formula gives {want_ret}");
+
+        let want = apply(&pre, &c, assets, shares);
+        diff_state(f, &c, &pre, &want, &post, &what)?;
+
+        // the event carries the same two numbers and the same parties
+        let ev_name = if c.kind.is_entry() { "deposit" } else { "withdraw" };
+        let decoded: Vec<_> = evs.iter().filter(|ev| ev.topic_sym(0).as_deref() == Some(ev_name)).collect();
+        ensure!(decoded.len() == 1, format!("C05/{f}/event-missing"), "{what}: expected exactly one `{ev_name}` event of the vault, got {:?}", evs);
+        let Some((_, t, ea, es)) = decode_vault_event(&v.e, decoded[0]) else {
+            bail!(format!("C05/{f}/event-malformed"), "{what}: cannot decode {:?}", decoded[0])
+        };
+        let a = &v.actors;
+        // deposit: [operator, from, receiver]; withdraw: [operator, receiver, owner]
+        let want_t = if c.kind.is_entry() {
+            [a[c.operator].clone(), a[c.holder].clone(), a[c.receiver].clone()]
+        } else {
+            [a[c.operator].clone(), a[c.receiver].clone(), a[c.holder].clone()]
+        };
+        ensure!(
+            (ea, es) == (assets, shares),
+            format!("C05/{f}/event-wrong-amounts"),
+            "{what}: event carries (assets {ea}, shares {es}), the operation moved (assets {assets}, shares {shares})"
+        );
+        ensure!(t == want_t, format!("C05/{f}/event-wrong-parties"), "{what}: event parties {:?}, expected {:?}", t, want_t);
+
+        // bookkeeping
+        self.m = post;
+        ctx.class(&format!("ok:{f}"));
+        if assets > 0 || shares > 0 {
+            self.st.kinds_ok.insert(c.kind);
+        }
+        if pre.total_assets() == 0 && pre.share_supply == 0 {
+            ctx.class("empty_vault_op_ok");
+        }
+        if c.operator != c.holder {
+            ctx.class("operator_ne_owner_ok");
+            if !c.kind.is_entry() && shares > 0 {
+                ctx.class("share_allowance_spent");
+            }
+            if c.kind.is_entry() && assets > 0 {
+                ctx.class("asset_allowance_spent");
+            }
+        }
+        if conv.phantom {
+            ctx.class("phantom_overflow_op_ok");
+        }
+        if conv.rem {
+            ctx.class("op_with_remainder_ok");
+        }
+        match c.kind {
+            VKind::Withdraw => {
+                let maxw = convert(&rate_of(pre.total_assets(), pre.share_supply, v.offset), pre.share_bal[c.holder], false, false).value();
+                if Some(c.amount) == maxw && c.amount > 0 {
+                    ctx.class("withdraw_at_max_ok");
+                }
+            }
+            VKind::Redeem => {
+                if c.amount == pre.share_bal[c.holder] && c.amount > 0 {
+                    ctx.class("redeem_at_max_ok");
+                }
+            }
+            _ => {}
+        }
+        Ok(Some((assets, shares)))
+    }
+}
+
+fn frac(base: i128, k: u8) -> i128 {
+    let k = (k as i128).min(4);
+    base / 4 * k + if k >= 4 { base % 4 } else { 0 }
+}
+fn part(base: i128, p: u16) -> i128 {
+    sat(&((b(base) * b(p as i128 + 1)) >> 16))
+}
+
+fn other_than(holder: usize, sel: u16) -> usize {
+    let others: Vec<usize> = (0..N_ACTORS).filter(|i| *i != holder).collect();
+    others[pick(sel, others.len())]
+}
+/// donations come mostly from the donor (last actor)
+fn donor_idx(sel: u16) -> usize {
+    const MAP: [usize; 8] = [0, 1, 2, 3, 3, 3, 3, 3];
+    MAP[pick(sel, MAP.len())]
+}
+
+pub fn run(case: &Case, ctx: &mut Ctx) -> R {
+    let v = VaultEnv::setup(case.offset, case.seq);
+    ctx.class(&format!("offset:{}", case.offset));
+    for (i, f) in case.funds.iter().enumerate().take(N_ACTORS) {
+        if *f > 0 {
+            v.fund(i, *f).map_err(|er| violation("C05/setup/fund", er))?;
+        }
+    }
+    let d0 = v.dump();
+    ensure!(
+        d0.total_assets() == 0 && d0.share_supply == 0 && d0.asset_bal[..N_ACTORS] == case.funds[..N_ACTORS],
+        "C05/setup/initial-state",
+        "unexpected initial state {:?}",
+        d0
+    );
+    let qa = envx::call_t::<Address>(&v.e, &v.vault, "query_asset", args![&v.e]);
+    ensure!(qa.as_ref().ok() == Some(&v.asset), "C05/query_asset/wrong-asset", "query_asset returned {:?}", qa);
+
+    let mut run = Run { v: &v, m: d0, st: Stats::default() };
+
+    for (step, op) in case.ops.iter().enumerate() {
+        let what = format!("step {step}");
+        match op {
+            Op::Vault { kind, amt, receiver, holder, operator, auth } => {
+                let holder = pick(*holder, N_ACTORS);
+                let receiver = pick(*receiver, N_ACTORS);
+                let (opr, allow) = match operator {
+                    Who::Holder => (holder, None),
+                    Who::Other { sel, allow } => (other_than(holder, *sel), Some(allow.clone())),
+                };
+                let amount = run.resolve_vault_amt(amt, *kind, holder, opr);
+                let c = VCall { kind: *kind, amount, receiver, holder, operator: opr, pull_assets: 0 };
+                if let Some(al) = allow {
+                    // generated approval just before the call (set-up; the allowance is what is under test)
+                    let needed = {
+                        let (_, conv) = predict(&run.m, v.offset, &c);
+                        match kind {
+                            VKind::Deposit | VKind::Redeem => (amount >= 0).then_some(amount),
+                            VKind::Mint | VKind::Withdraw => conv.value(),
+                        }
+                    };
+                    let appr = match (al, needed) {
+                        (Allow::Keep, _) => None,
+                        (Allow::Max, _) => Some(i128::MAX),
+                        (Allow::Needed(d), Some(n)) => Some(n.saturating_add(d as i128).max(0)),
+                        (Allow::Needed(_), None) => None,
+                    };
+                    if let Some(x) = appr {
+                        let mut want = run.m.clone();
+                        if kind.is_entry() {
+                            v.asset_approve(holder, opr, x).map_err(|er| violation("C05/setup/asset-approve", er))?;
+                            want.asset_allow[holder][opr] = x;
+                        } else {
+                            v.share_approve(holder, opr, x).map_err(|er| violation("C05/setup/share-approve", er))?;
+                            want.share_allow[holder][opr] = x;
+                        }
+                        run.sync(&want, "C05/setup/approve-state", &what)?;
+                    }
+                }
+                run.vault_op(ctx, &c, auth, &what)?;
+            }
+            Op::Donate { by, amt } => {
+                let by = donor_idx(*by);
+                let x = run.resolve_simple(amt, run.m.asset_bal[by]);
+                let pre = run.m.clone();
+                let r = v.donate(by, x);
+                let ok_expected = x >= 0 && x <= pre.asset_bal[by];
+                ensure!(r.is_ok() == ok_expected, "C05/setup/donate", "{what}: donate({by}, {x}) -> {:?}, balance {}", r, pre.asset_bal[by]);
+                let mut want = pre.clone();
+                if ok_expected {
+                    let vi = want.vault_idx();
+                    want.asset_bal[by] -= x;
+                    want.asset_bal[vi] += x;
+                }
+                run.sync(&want, "C05/donate/state-mismatch", &what)?;
+                if ok_expected {
+                    ensure!(rate_not_decreased(&pre, &run.m, v.offset), "C05/donate/rate-decreased", "{what}: donation lowered the rate");
+                    if x > 0 {
+                        ctx.class("donation_ok");
+                    }
+                }
+            }
+            Op::ApproveAsset { owner, spender, amt } | Op::ApproveShares { owner, spender, amt } => {
+                let is_asset = matches!(op, Op::ApproveAsset { .. });
+                let o = pick(*owner, N_ACTORS);
+                let s = pick(*spender, N_ACTORS);
+                let base = if is_asset { run.m.asset_bal[o] } else { run.m.share_bal[o] };
+                let x = run.resolve_simple(amt, base);
+                if x < 0 {
+                    ctx.class("skipped_op");
+                    continue;
+                }
+                let mut want = run.m.clone();
+                if is_asset {
+                    v.asset_approve(o, s, x).map_err(|er| violation("C05/setup/asset-approve", er))?;
+                    want.asset_allow[o][s] = x;
+                } else {
+                    v.share_approve(o, s, x).map_err(|er| violation("C05/setup/share-approve", er))?;
+                    want.share_allow[o][s] = x;
+                }
+                run.sync(&want, "C05/setup/approve-state", &what)?;
+                ctx.class("approve_op");
+            }
+            Op::ShareTransfer { from, to, amt } => {
+                let f = pick(*from, N_ACTORS);
+                let t = pick(*to, N_ACTORS);
+                let x = run.resolve_simple(amt, run.m.share_bal[f]);
+                let pre = run.m.clone();
+                let r = v.share_transfer(f, t, x);
+                let ok_expected = x >= 0 && x <= pre.share_bal[f];
+                ensure!(r.is_ok() == ok_expected, "C05/setup/share-transfer", "{what}: share transfer({f},{t},{x}) -> {:?}, balance {}", r, pre.share_bal[f]);
+                let mut want = pre.clone();
+                if ok_expected {
+                    want.share_bal[f] -= x;
+                    want.share_bal[t] += x;
+                    if x > 0 && f != t {
+                        ctx.class("share_transfer_ok");
+                    }
+                }
+                run.sync(&want, "C05/share_transfer/state-mismatch", &what)?;
+            }
+            Op::Probe { kind, who, amt } => {
+                let who = pick(*who, N_ACTORS);
+                let r = run.rate();
+                let m = &run.m;
+                let what = format!("{what} probe {:?}; A={} S={} offset={}", kind, m.total_assets(), m.share_supply, v.offset);
+                let (fname, to_shares, ceil) = match kind {
+                    ProbeKind::ConvertToShares => ("convert_to_shares", true, false),
+                    ProbeKind::PreviewDeposit => ("preview_deposit", true, false),
+                    ProbeKind::PreviewWithdraw => ("preview_withdraw", true, true),
+                    ProbeKind::ConvertToAssets => ("convert_to_assets", false, false),
+                    ProbeKind::PreviewRedeem => ("preview_redeem", false, false),
+                    ProbeKind::PreviewMint => ("preview_mint", false, true),
+                    ProbeKind::MaxWithdraw => ("max_withdraw", false, false),
+                    ProbeKind::MaxRedeem => ("max_redeem", false, false),
+                    ProbeKind::Totals => ("total_assets", false, false),
+                };
+                match kind {
+                    ProbeKind::Totals => {
+                        let ta = v.q("total_assets", args![&v.e]);
+                        ensure!(ta == Ok(m.total_assets()), "C05/total_assets/wrong-value", "{what}: total_assets() = {:?}, asset balance of the vault = {}", ta, m.total_assets());
+                        let ts = v.q("total_supply", args![&v.e]);
+                        ensure!(ts == Ok(m.share_supply), "C05/total_supply/wrong-value", "{what}: total_supply() = {:?}, model {}", ts, m.share_supply);
+                    }
+                    ProbeKind::MaxRedeem => {
+                        let g = v.q_addr(fname, who);
+                        ensure!(g == Ok(m.share_bal[who]), "C05/max_redeem/wrong-value", "{what}: max_redeem({who}) = {:?}, share balance {}", g, m.share_bal[who]);
+                    }
+                    ProbeKind::MaxWithdraw => {
+                        let conv = convert(&r, m.share_bal[who], false, false);
+                        let g = v.q_addr(fname, who);
+                        let w = format!("{what} owner {who} with {} shares", m.share_bal[who]);
+                        note_conv(ctx, &mut run.st, &conv);
+                        check_conv(fname, &g, &conv, &w)?;
+                    }
+                    _ => {
+                        let base = if to_shares { m.total_assets().max(m.asset_bal[who]) } else { m.share_supply.max(1) };
+                        let x = run.resolve_simple(amt, base);
+                        let conv = convert(&r, x, to_shares, ceil);
+                        let g = v.q_amount(fname, x);
+                        let w = format!("{what} input {x}");
+                        note_conv(ctx, &mut run.st, &conv);
+                        check_conv(fname, &g, &conv, &w)?;
+                    }
+                }
+                ctx.class("probe");
+            }
+            Op::RoundTrip { kind, who, amt } => {
+                let u = pick(*who, N_ACTORS);
+                let (k1, k2) = match kind {
+                    RtKind::DepositRedeem => (VKind::Deposit, VKind::Redeem),
+                    RtKind::DepositWithdraw => (VKind::Deposit, VKind::Withdraw),
+                    RtKind::MintWithdraw => (VKind::Mint, VKind::Withdraw),
+                    RtKind::MintRedeem => (VKind::Mint, VKind::Redeem),
+                };
+                let x = run.resolve_vault_amt(amt, k1, u, u);
+                let c1 = VCall { kind: k1, amount: x, receiver: u, holder: u, operator: u, pull_assets: 0 };
+                let Some((a_in, s_in)) = run.vault_op(ctx, &c1, &VAuth::Exact, &format!("{what} round-trip {:?} leg 1", kind))? else {
+                    ctx.class("roundtrip_leg1_rejected");
+                    continue;
+                };
+                // leg 2 undoes leg 1 in the unit of the second call
+                let y = if k2 == VKind::Redeem { s_in } else { a_in };
+                let c2 = VCall { kind: k2, amount: y, receiver: u, holder: u, operator: u, pull_assets: 0 };
+                match run.vault_op(ctx, &c2, &VAuth::Exact, &format!("{what} round-trip {:?} leg 2", kind))? {
+                    None => ctx.class("roundtrip_leg2_rejected"),
+                    Some((a_out, s_out)) => {
+                        // rounding is in the vault's favour: never more assets out than in, never fewer shares burned than minted
+                        if k2 == VKind::Redeem {
+                            ensure!(
+                                a_out <= a_in,
+                                "C05/roundtrip/assets-gained",
+                                "{what}: {:?} by user {u}: paid {a_in} assets for {s_in} shares, redeeming them returned {a_out}",
+                                kind
+                            );
+                        } else {
+                            ensure!(
+                                s_out >= s_in,
+                                "C05/roundtrip/shares-gained",
+                                "{what}: {:?} by user {u}: got {s_in} shares for {a_in} assets, withdrawing the assets burned only {s_out}",
+                                kind
+                            );
+                        }
+                        ctx.class("roundtrip_ok");
+                    }
+                }
+            }
+        }
+    }
+
+    // entry-point view agrees with the bulk read
+    let ta = v.q("total_assets", args![&v.e]);
+    ensure!(ta == Ok(run.m.total_assets()), "C05/total_assets/wrong-value", "final total_assets() = {:?}, asset balance of the vault = {}", ta, run.m.total_assets());
+    let ts = v.q("total_supply", args![&v.e]);
+    ensure!(ts == Ok(run.m.share_supply), "C05/total_supply/wrong-value", "final total_supply() = {:?}, model {}", ts, run.m.share_supply);
+
+    if run.st.rem_seen && run.st.kinds_ok.len() >= 2 {
+        ctx.nontrivial = true;
+        ctx.class("nontrivial");
+    }
+    Ok(())
+}
+
+macro_rules! offset_sub {
+    ($name:expr, $off:expr) => {{
+        fn strat(tier: Tier) -> BoxedStrategy<Case> {
+            strategy_for($off, tier)
+        }
+        gen_sub::<Case>($name, 150, 3750, strat, run)
+    }};
+}
 
 pub fn property() -> Property {
-    Property { id: "C05", rule: "", subs: vec![], floors: vec![], assumptions: vec![] }
+    Property {
+        id: "C05",
+        rule: "case = (decimals offset 0..=10 [one sub-check each], asset funding of 3 users + donor from {0, small, 10^6.., 10^17.., 2^100..}, optional \
+               pre-funding prefix, history of <=28 (thorough 40) ops deposit/mint/withdraw/redeem [operator = holder or another actor with a generated \
+               allowance Needed-1/Needed/Needed+k/Max/Keep; auth Exact|Surplus mostly, Drop|Swap|DropSub|Tamper sometimes] / donate / approve / share transfer / \
+               conversion+max probes / two-leg round trips; amounts from {0,1,2,3,7,10^k+-1, k/4 and p/65536 of balance, max+-1, allowance+-1, supply gap, huge, negative}); \
+               non-trivial = some evaluated conversion had a non-zero remainder AND >= 2 different operation kinds succeeded moving a non-zero amount; distinct = distinct serialised case",
+        subs: vec![
+            offset_sub!("offset-0", 0),
+            offset_sub!("offset-1", 1),
+            offset_sub!("offset-2", 2),
+            offset_sub!("offset-3", 3),
+            offset_sub!("offset-4", 4),
+            offset_sub!("offset-5", 5),
+            offset_sub!("offset-6", 6),
+            offset_sub!("offset-7", 7),
+            offset_sub!("offset-8", 8),
+            offset_sub!("offset-9", 9),
+            offset_sub!("offset-10", 10),
+        ],
+        floors: vec![
+            ("nontrivial", 100, 2000),
+            ("ok:deposit", 300, 6000),
+            ("ok:mint", 250, 5000),
+            ("ok:withdraw", 200, 4000),
+            ("ok:redeem", 230, 4600),
+            ("operator_ne_owner_ok", 270, 5400),
+            ("share_allowance_spent", 35, 700),
+            ("asset_allowance_spent", 85, 1700),
+            ("phantom_overflow_hit", 430, 8600),
+            ("phantom_overflow_op_ok", 190, 3800),
+            ("empty_vault_op_ok", 170, 3400),
+            ("donation_ok", 180, 3600),
+            ("op_with_remainder_ok", 470, 9400),
+            ("auth_mode_rejected", 110, 2200),
+            ("withdraw_at_max_ok", 16, 320),
+            ("withdraw_max_plus_1_rejected", 50, 1000),
+            ("redeem_at_max_ok", 40, 800),
+            ("redeem_max_plus_1_rejected", 25, 500),
+            ("roundtrip_ok", 110, 2200),
+            ("result_overflow", 80, 1600),
+            ("probe", 300, 6000),
+        ],
+        assumptions: vec![
+            "Soroban native test host (auth-tree matching, rollback of failed invocations, event buffer) is trusted",
+            "plain actors are contract addresses with an accept-all account contract: 'X authorized' == 'an entry of X with exactly this invocation tree was attached'",
+            "asset token = library Base token (FtBase); total assets = its balance of the vault; the ledger is not advanced, so allowances never expire",
+            "when S + 10^offset does not fit i128 (intermediate overflow) a documented MathOverflow failure is accepted; a success must still carry the exact value",
+        ],
+    }
 }
